@@ -2,12 +2,12 @@
    Only statements, closed by [exact lemma], with Print Assumptions beneath. *)
 From Coq Require Import String List NArith ZArith Bool Lia ZifyN ZifyNat ZifyBool.
 From J5V.lib Require Import Outcome.
-From J5V.model Require Import ProtoPrintLit ProtoPrint ProtoPrintFile ProtoParseFile ProtoPrintFileWf.
+From J5V.model Require Import ProtoPrintLit ProtoPrint ProtoLex ProtoLayout ProtoPrintFile ProtoParseFile ProtoPrintFileWf ProtoPrintFileErase.
 From J5V.gen Require PrintGen PrintFileGen.
 From J5V.proofs Require Import ProtoPrintLitProofs ProtoPrintProofs ProtoPrintTokenProofs
   ProtoPrintFileSyntaxProofs ProtoPrintFileSortProofs ProtoPrintFileSemProofs ProtoPrintFileFullProofs.
 From J5V.proofs Require ProtoPrintFileExample ProtoPrintFileGenProofs.
-From J5V.proofs Require Import ProtoPrintFileWfProofs.
+From J5V.proofs Require Import ProtoPrintFileWfProofs ProtoLexProofs ProtoPrintFileTextProofs.
 Import ListNotations.
 Local Open Scope N_scope.
 
@@ -26,9 +26,21 @@ Local Open Scope N_scope.
    (2) scope layer: every type reference the printer shortens resolves, from the scope it is printed in, to
        the type it was written for (used inside (0) for field and rpc types),
    (3) option values at token level (used inside (0)).
+   (4) character layer (model/ProtoLex.v, model/ProtoLayout.v): a model of protocompile's lexer on bytes
+       (identifiers, numbers with the validity test of Lex, string literals, // and block comments skipped,
+       punctuation) and the relation "text is a layout of a token list": the token texts in order, separated
+       by whitespace and // comments, each token followed by a byte that ends it. C05_scan_layout: the lexer
+       reads EVERY layout of a token list back as exactly those tokens, whatever the separators are.
+       C05_text_roundtrip: every text that is a layout of the comment-free tokens printed for a well-formed
+       D is read (lexer model + parser model) as a descriptor equivalent to D up to comments. The file
+       correspondence checks on every run that the bytes PrintFile wrote ARE such a layout (is_layout) and
+       that the lexer model and the real lexer give the same tokens for them.
    What is NOT modelled, and stays with the correspondence (real text tokenised by the real lexer = model
-   tokens) and the round-trip oracle: the characters between the tokens (indentation, blank lines, line
-   breaks of inline / block option forms, "//" comment delimiters) and trailing comments; the resolution
+   tokens) and the round-trip oracle: WHICH separators the printer chooses (indentation, blank lines, line
+   breaks of inline / block option forms: the theorem holds for any choice) and hence "printing again gives
+   the same text" at byte level; the attribution of comments to declarations by the parser's source info
+   at character level (comments are pseudo tokens at token level, skipped at character level) and trailing
+   comments; single-quoted strings in the lexer model; the resolution
    of extension names in option names and of extendees; strconv.Quote of json_name beyond plain text;
    floats in option values. C05_full_statement is the property over the text; C05_full_partial derives it
    from C05_token_roundtrip with the text-level clause "same text" weakened to "same tokens", under the
@@ -73,6 +85,45 @@ Theorem C05_full_partial : forall (render : xsymtab -> dfile -> list N) (scan : 
       /\ scan (render imp D') = scan (render imp D).
 Proof. exact text_roundtrip_partial. Qed.
 Print Assumptions C05_full_partial.
+
+(* ---- (4) character layer ---------------------------------------------------------------------------- *)
+(* the lexer reads every layout of a token list back as exactly those tokens *)
+Theorem C05_scan_layout : forall toks text, is_layout toks text = true -> scan_text text = Some toks.
+Proof. exact scan_layout. Qed.
+Print Assumptions C05_scan_layout.
+
+(* the property over the text, up to comments: for every well-formed D and EVERY text that is a layout of the
+   comment-free tokens the printer model writes for D (whatever whitespace and // comments separate them),
+   lexing and parsing the text gives a descriptor D' equivalent to D without comments
+   (desc_equiv_nc D D' := exists D0, desc_equiv D D0 /\ D' = erase_dfile D0) *)
+Definition C05_text_statement : Prop :=
+  forall (imp : xsymtab) (D : dfile) (text : list N), wf_dfile imp D ->
+    is_layout (print_file_tokens_nc (to_symtab (dfile_symtab imp D)) D) text = true ->
+    exists D', read_text imp text = Some D' /\ desc_equiv_nc D D'.
+
+Theorem C05_text_roundtrip : C05_text_statement.
+Proof. exact text_roundtrip_equiv. Qed.
+Print Assumptions C05_text_roundtrip.
+
+(* ... with the descriptor named *)
+Theorem C05_text_canonical : forall imp D text, wf_dfile imp D ->
+  is_layout (print_file_tokens_nc (to_symtab (dfile_symtab imp D)) D) text = true ->
+  read_text imp text = Some (erase_dfile (canon_file D)).
+Proof. exact text_roundtrip. Qed.
+Print Assumptions C05_text_canonical.
+
+(* such a text exists whenever the printed tokens are lexable one by one: one space after every token *)
+Theorem C05_text_exists : forall imp D,
+  forallb tok_ok (print_file_tokens_nc (to_symtab (dfile_symtab imp D)) D) = true ->
+  is_layout (print_file_tokens_nc (to_symtab (dfile_symtab imp D)) D)
+            (spaced (print_file_tokens_nc (to_symtab (dfile_symtab imp D)) D)) = true.
+Proof. exact text_exists. Qed.
+Print Assumptions C05_text_exists.
+
+(* the interpretation of a syntactic file does not look at comments *)
+Theorem C05_interp_erase : forall imp s, interp_file imp (erase_sfile s) = option_map erase_dfile (interp_file imp s).
+Proof. exact interp_file_erase. Qed.
+Print Assumptions C05_interp_erase.
 
 (* the hypotheses as a computable test: the file correspondence evaluates it on every real descriptor of a
    run (the original and the re-parsed one), so each of them is inside C05_token_roundtrip *)
